@@ -100,6 +100,9 @@ def atom_expr(r):
         lambda: ['in', P, lit(gen.vset([G, UB]))],
         lambda: ['is', P, S('User')],
         lambda: ['isIn', P, S('User'), lit(G)],
+        lambda: ['isIn', P, S(r.choice(['User', 'Doc'])), acc(R, 'owner')],
+        lambda: ['isIn', acc(C, 'who'), S(r.choice(['User', 'Group'])), acc(C, 'missing')],
+        lambda: ['isIn', R, S('User'), ['add', L(1), lit(gen.vstr('a'))]],
         lambda: ['eq', R, lit(DOC)],
         lambda: ['eq', acc(R, 'owner'), P],
         lambda: ['eq', acc(P, 'name'), lit(gen.vstr('alice'))],
